@@ -60,6 +60,12 @@ Theorem routes_agree : forall (C : Type) (cfg : C) r, construct r cfg = Built cf
 Proof. exact (fun C cfg r => match r with RKwargsWithInstance => eq_refl | RConfigOnly => eq_refl | RYamlReload => eq_refl end). Qed.
 Print Assumptions routes_agree.
 
+(* ---------- 64-bit mode is switched on BEFORE the discount-factor array is created (otherwise the first solver of
+   a process would compute with a discount factor rounded to single precision although the values are float64) *)
+Theorem discount_factor_not_rounded : x64_enabled_before_gamma_array = true.
+Proof. exact eq_refl. Qed.
+Print Assumptions discount_factor_not_rounded.
+
 (* ---------- with double precision requested the values are float64 in both construction orders *)
 Theorem precision_order_independent : forall o, values_dtype true o = F64.
 Proof. exact (fun o => match o with ProblemFirst => eq_refl | SolverFirst => eq_refl end). Qed.
